@@ -27,6 +27,14 @@
 #include <utility>
 #include <vector>
 
+#ifdef PGM_INDEX_VERIF
+namespace pgm {
+/// Verification hook: largest distance, over the levels visited by the last searches, between the segment chosen by
+/// segment_for_key() and the position predicted by the level above (reset by the harness).
+inline size_t pgm_verif_max_route_dev = 0;
+}
+#endif
+
 namespace pgm {
 
 #define PGM_SUB_EPS(x, epsilon) ((x) <= (epsilon) ? 0 : ((x) - (epsilon)))
@@ -152,6 +160,14 @@ protected:
                 auto hi = level_begin + PGM_ADD_EPS(pos, EpsilonRecursive, level_size);
                 it = std::prev(std::upper_bound(lo, hi, key));
             }
+#ifdef PGM_INDEX_VERIF
+            {
+                auto found = size_t(it - level_begin);
+                auto dev = found > pos ? found - pos : pos - found;
+                if (dev > pgm_verif_max_route_dev)
+                    pgm_verif_max_route_dev = dev;
+            }
+#endif
         }
         return it;
     }
